@@ -56,8 +56,21 @@ def _exec(mod, plan: dict) -> dict:
     cap = getattr(mod, "RUN_CAP_S", 120)
     faulthandler.dump_traceback_later(cap, exit=True)
     t0 = time.monotonic()
+    from simkit.core import SutError
+
     try:
         res = mod.execute(plan)
+    except SutError as e:
+        # an exception escaping from a call the plan is entitled to make: a violation of the
+        # system under test, never a harness error
+        parts = str(e).split("|", 3)
+        if len(parts) == 4:
+            v = {"oracle": "unexpected-exception", "locus": f"{parts[0]}/{parts[1]}/{parts[2]}",
+                 "detail": f"a legitimate call raised: {parts[3]}"[:1500]}
+        else:
+            v = {"oracle": "unexpected-exception", "locus": "call", "detail": str(e)[:1500]}
+        res = {"violations": [v], "digest": "exception:" + v["locus"], "tail": [], "sig": "exception",
+               "nontrivial": True, "counters": {}, "simtime": 0, "subbatch": "exception"}
     finally:
         faulthandler.cancel_dump_traceback_later()
     res["wall"] = time.monotonic() - t0
